@@ -94,9 +94,13 @@ Section Row.
     | None => None
     end.
 
-  (* None: jnp.min over an empty graph axis raises (all graphs were zero), or fuel exhaustion (excluded in Proofs) *)
+  (* an empty graph axis (every graph was the zero scalar and has been dropped): with the guard at the top of `evaluate`
+     (regenerated flag eval_empty_returns_zero) the result is 0; without it the reductions over the empty axis raise (None).
+     None otherwise only on fuel exhaustion (excluded in Proofs). *)
+  Definition no_graphs (c : compiled) : bool := match c_graphs c with [] => true | _ :: _ => false end.
   Definition evaluate (c : compiled) : option eval_result :=
-    if c_has_approx c then
+    if eval_empty_returns_zero && no_graphs c then Some (EvExact (q4_zero, 0))
+    else if c_has_approx c then
       match all_some (map ev_approx_one (c_graphs c)) with
       | Some l => Some (EvApprox l)
       | None => None
@@ -137,6 +141,7 @@ Section Row.
                 && (zsum (map (fun x => norm1 (fst x) * 2 ^ (snd x - m)) l) <? H32)
     end.
   Definition eval_guard (c : compiled) : bool :=
+    if eval_empty_returns_zero && no_graphs c then true else
     forallb graph_guard (c_graphs c) &&
     (if c_has_approx c then true
      else match all_some (map ev_exact_one (c_graphs c)) with Some l => sum_guard l | None => false end).
